@@ -32,7 +32,7 @@ ORDER = {
     "bs_write.rs": ["C12", "C01", "C02"], "crc32.rs": ["C07", "C02"],
     "blob.rs": ["C06", "C02", "C08", "C09", "C17"], "bounds.rs": ["C14", "C04", "C03"],
     "cv_section.rs": ["C03", "C02", "C08", "C01"], "packet.rs": ["C03", "C02", "C08", "C09", "C01"],
-    "date_time.rs": ["C04", "C03", "C18"], "e57_reader.rs": ["C03", "C08", "C07", "C17", "C04", "C15"],
+    "date_time.rs": ["C04", "C03", "C18"], "e57_reader.rs": ["C03", "C08", "C09", "C07", "C17", "C04", "C15"],
     "e57_writer.rs": ["C02", "C04", "C10", "C15", "C16"], "extension.rs": ["C10", "C04", "C18", "C01"],
     "header.rs": ["C02", "C08", "C15", "C03"], "image_writer.rs": ["C04", "C06", "C10", "C16"],
     "images.rs": ["C04", "C03", "C18", "C06"], "limits.rs": ["C14", "C04", "C13", "C03"],
@@ -40,7 +40,7 @@ ORDER = {
     "pc_writer.rs": ["C01", "C14", "C10", "C02", "C12", "C19"], "point.rs": ["C05"],
     "pointcloud.rs": ["C04", "C03", "C18", "C01"], "queue_reader.rs": ["C03", "C12", "C09", "C08", "C01"],
     "record.rs": ["C10", "C12", "C01", "C04", "C03", "C13"], "root.rs": ["C04", "C03", "C02"],
-    "transform.rs": ["C04", "C05"], "xml.rs": ["C04", "C03", "C18", "C08", "C19"],
+    "transform.rs": ["C04", "C05"], "xml.rs": ["C04", "C03", "C18", "C08", "C09", "C19"],
     "main.rs": ["C20"],
 }
 FILES = [f"src/{f}" for f in ORDER if f != "main.rs"] + [
@@ -87,7 +87,7 @@ def code_regions(text):
         if brace_skip is not None and depth <= brace_skip and "}" in line:
             brace_skip = None
             usable = False
-        if usable and s and not s.startswith(("//", "#[", "#!", "use ", "pub use ", "mod ", "pub mod ")):
+        if usable and s and not s.startswith(("//", "/*", "* ", "*/", "#[", "#!", "use ", "pub use ", "mod ", "pub mod ")):
             yield no, off, line
         off += len(line) + 1
 
